@@ -377,6 +377,46 @@ Definition apply_auth (st : astate) (c : aenv * addr * amsg) : astate :=
   match auth_step st env sender m with Ok st' => st' | Err => st end.
 Definition run_auth (st : astate) (cs : list (aenv * addr * amsg)) : astate := fold_left apply_auth cs st.
 
+(* ---------------------------------------------------------------- migration *)
+(* MsgMigrateContract is the other message a user account can send to a contract.  The
+   chain lets it through only for the contract's wasm-level admin (the factories make the
+   creator the wasm admin of its minter and of its collection), then the contract's
+   `migrate` entry point runs.  On the principal-relevant state every migrate entry point
+   of the workspace is a FRAME: version bookkeeping and back-fills of slots this state
+   does not contain — in particular a minter's migrate takes `Empty` and must leave its
+   Status alone, and a factory's migrate with no parameter message must leave its Params
+   alone.  The one documented exception (C20): a factory's migrate may carry an explicit
+   UpdateParams message, applied like the sudo one; `explicit_params` = Some q stands for
+   it, q being the parameters that result (an oracle the harness reads back).
+   Whether the stored cw2 (name, version) pair is acceptable is not an authorization
+   matter: the correspondence case supplies it (`version_ok`). *)
+Definition migrate_step (st : astate) (sender_is_wasm_admin : bool) (explicit_params : option N) : result astate :=
+  if negb sender_is_wasm_admin then Err
+  else match explicit_params, st with
+       | None, _ => Ok st
+       | Some q, AFactory _ => Ok (AFactory q)
+       | Some _, _ => Err              (* every other migrate entry point takes `Empty` *)
+       end.
+
+(* everything a user account can send to a contract *)
+Inductive umsg :=
+| UExecute (m : amsg)
+| UMigrate (sender_is_wasm_admin : bool) (explicit_params : option N).
+
+Definition user_step (st : astate) (env : aenv) (sender : addr) (u : umsg) : result astate :=
+  match u with
+  | UExecute m => auth_step st env sender m
+  | UMigrate adm ex => migrate_step st adm ex
+  end.
+Definition apply_user (st : astate) (c : aenv * addr * umsg) : astate :=
+  let '(env, sender, u) := c in
+  match user_step st env sender u with Ok st' => st' | Err => st end.
+Definition run_user (st : astate) (cs : list (aenv * addr * umsg)) : astate := fold_left apply_user cs st.
+
+(* a history in which no migrate carries an explicit parameter message *)
+Definition no_explicit_params (c : aenv * addr * umsg) : bool :=
+  match snd c with UMigrate _ (Some _) => false | _ => true end.
+
 (* ---------------------------------------------------------------- who owns what *)
 (* The table of the property sentence: the role each message is reserved to, and who
    holds that role in a given state.  Total over the message types, so a message added
